@@ -14,6 +14,8 @@ executed: the interpreter walks extracted AST facts.
 A construct outside the interpreted fragment raises Unsupported; the caller reports that as
 analysis-broken for the function concerned (never as a pass).
 """
+import re
+
 from . import facts as F
 from . import terms as T
 
@@ -193,7 +195,7 @@ class Config:
     """per-check configuration of the interpreter"""
 
     def __init__(self, inline=(), pure=(), opaque=(), inline_all_fcppt=False, max_depth=40,
-                 loop_bound=2, hooks=None, pure_prefixes=(), inline_prefixes=(), record_prefixes=(), ref_writes=False, max_steps=20000, lvalues=False, iter_positions=False):
+                 loop_bound=2, hooks=None, pure_prefixes=(), inline_prefixes=(), record_prefixes=(), ref_writes=False, max_steps=20000, lvalues=False, iter_positions=False, iter_classes=(), std_search=False):
         self.inline = set(inline)
         self.pure = set(pure)
         self.opaque = set(opaque)
@@ -214,6 +216,8 @@ class Config:
         # opt-in (needs lvalues): std iterators are positions -- ++ / -- update the variable, std::next / std::prev / + / - build
         # base +- k terms, * is the pure term deref(position), == / != are comparison atoms on positions
         self.iter_positions = iter_positions
+        self.std_search = std_search      # std::find_if as a summary over the range's `more` atoms (else an opaque event)
+        self.iter_classes = tuple(iter_classes)    # further iterator classes (qualified-name prefixes of their operators) with position semantics
 
 
 class Interp:
@@ -225,6 +229,7 @@ class Interp:
         self.assign = None
         self.depth = 0
         self.steps = 0
+        self.nquestions = 0
         self.want_loc = []
 
     # -- driving ---------------------------------------------------------------------------
@@ -248,6 +253,7 @@ class Interp:
             self.assign = {}
             self.depth = 0
             self.steps = 0
+            self.nquestions = 0
             try:
                 v = thunk()
                 p.outcome = ("return", v)
@@ -269,6 +275,7 @@ class Interp:
         self.assign = {}
         self.depth = 0
         self.steps = 0
+        self.nquestions = 0
         try:
             v = self.call_function(fn, args, this)
             self.path.outcome = ("return", v)
@@ -286,6 +293,7 @@ class Interp:
         self.assign = {}
         self.depth = 0
         self.steps = 0
+        self.nquestions = 0
         try:
             v = self.apply_lambda_op(closure, op, args)
         except NeedDecision as nd:
@@ -306,6 +314,7 @@ class Interp:
             return self.decide(atom[1]) and self.decide(atom[2])
         if isinstance(atom, tuple) and atom[0] == "or":
             return self.decide(atom[1]) or self.decide(atom[2])
+        self.nquestions += 1
         if self.oracle is not None:
             r = self.oracle(self, atom)
             if r is not None:
@@ -424,8 +433,14 @@ class Interp:
                     base_loc = self.lv(unit, v.get("init"), env, this) if is_ref and v.get("init") is not None else None
                     if base_loc is None:
                         base_loc = ("@var", env, v["id"])
+                # the bindings of a std::pair ARE its members first / second (one name for `auto [a, b] = p` and `p.first`)
+                is_pair = len(v.get("bindings", []) or []) == 2 and re.sub(r"^(const )?", "", (unit.ty(v.get("t")) or "")).startswith("std::pair<")
                 for i, b in enumerate(v.get("bindings", []) or []):
-                    env.vars[b["id"]] = ("@ref", ("@idx", base_loc, i)) if base_loc is not None else ("elem", val, i)
+                    if is_pair:
+                        fname = ("first", "second")[i]
+                        env.vars[b["id"]] = ("@ref", ("@fld", base_loc, fname)) if base_loc is not None else self.field(val, fname)
+                    else:
+                        env.vars[b["id"]] = ("@ref", ("@idx", base_loc, i)) if base_loc is not None else ("elem", val, i)
             return
         if k == "if":
             inner = Env(env)
@@ -447,20 +462,26 @@ class Interp:
             raise _Return(v)
         if k == "while":
             n = 0
+            total = 0
             while True:
+                # only iterations that ask a QUESTION count against the unrolling bound: an iteration in which neither the
+                # condition nor the body decides anything (a counter running against a compile-time size) is simply executed
+                q0 = self.nquestions
                 c = self.eval(unit, s.get("cond"), env, this)
                 if not self.truth(c):
                     break
                 if n >= self.cfg.loop_bound:
                     self.event("loop-bound", [], unit.loc(s.get("loc")))
                     raise _Truncated()
-                n += 1
+                total += 1
                 try:
                     self.exec_stmt(unit, s.get("body"), Env(env), this)
                 except _Break:
                     break
                 except _Continue:
-                    continue
+                    pass
+                if self.nquestions != q0 or total > 64:
+                    n += 1
             return
         if k == "do":
             n = 0
@@ -487,7 +508,9 @@ class Interp:
                 else:
                     self.eval(unit, s["init"], inner, this)
             n = 0
+            total = 0
             while True:
+                q0 = self.nquestions
                 if s.get("cond") is not None:
                     c = self.eval(unit, s.get("cond"), inner, this)
                     if not self.truth(c):
@@ -495,7 +518,7 @@ class Interp:
                 if n >= self.cfg.loop_bound:
                     self.event("loop-bound", [], unit.loc(s.get("loc")))
                     raise _Truncated()
-                n += 1
+                total += 1
                 try:
                     self.exec_stmt(unit, s.get("body"), Env(inner), this)
                 except _Break:
@@ -504,6 +527,8 @@ class Interp:
                     pass
                 if s.get("inc") is not None:
                     self.eval(unit, s["inc"], inner, this)
+                if self.nquestions != q0 or total > 64 or s.get("cond") is None:
+                    n += 1      # (see `while`)
             return
         if k == "range_for":
             rng = self.eval(unit, s.get("range"), env, this)
@@ -626,6 +651,27 @@ class Interp:
             return TRUE
         if a == b and op in ("!=", "<", ">"):
             return FALSE
+        if op in ("==", "!="):
+            # a position a search summary FOUND (dereferenceable) is never the end() of a range
+            for (x, y) in ((a, b), (b, a)):
+                if isinstance(x, tuple) and x and x[0] == "iter" and isinstance(y, tuple) and y and y[0] == "ev" and self.path is not None \
+                        and self.path.events[y[1] - 1][0].split("<")[0].split("::")[-1] in ("end", "cend"):
+                    return FALSE if op == "==" else TRUE
+            # x + j against x + k (the same base, constant offsets): equal exactly when j == k (also in modular arithmetic, the
+            # offsets being small) -- `it != begin` for it == begin + 1 is not a free question
+            def split(t):
+                off = 0
+                while isinstance(t, tuple) and len(t) == 4 and t[0] == "op" and t[1] in ("+", "-") and is_const(t[3]):
+                    try:
+                        c = int(str(t[3][1]).rstrip("uUlL"))
+                    except (TypeError, ValueError):
+                        break
+                    off += c if t[1] == "+" else -c
+                    t = t[2]
+                return t, off
+            (ba, oa), (bb, ob) = split(a), split(b)
+            if ba == bb and (oa != 0 or ob != 0) and abs(oa - ob) < 256:
+                return TRUE if (oa == ob) == (op == "==") else FALSE
         return ("cmp", op, a, b)
 
     def eval(self, unit, n, env, this):
@@ -1109,7 +1155,7 @@ class Interp:
                     raise Unsupported("no matching call operator for lambda at %s" % loc)
                 return self.apply_lambda_op(recv, op, args)
             return self.event("call", [recv] + args, loc, label="call")
-        if self.cfg.iter_positions and _is_std_iter(d):
+        if self.cfg.iter_positions and (_is_std_iter(d) or any(qn.startswith(p_) for p_ in self.cfg.iter_classes)):
             r = self.iter_op(unit, n, d, qn, short, env, this)
             if r is not None:
                 return r
@@ -1134,6 +1180,40 @@ class Interp:
                     acc = self.apply(args[3], [acc, e], unit, unit.loc(n.get("loc")), None) if len(args) == 4 else self.arith("+", acc, e)
                     i += 1
                 return acc
+        if short in ("operator==", "operator!=") and _is_std_iter(d):
+            # std iterators without the position model: equality of identical values / of a found position with end() is decided
+            vals = ([recv] if recv is not None else []) + args
+            if len(vals) == 2:
+                r = self.compare(short[-2:], vals[0], vals[1])
+                if r in (TRUE, FALSE):
+                    return r
+        if self.cfg.std_search and qn == "std::find_if" and len(args) == 3:
+            # summary (trusted): the position of the first element of [first, last) satisfying the predicate, else last -- over
+            # the same `more(range, i)` atoms a range-for over that range decides; a found position never equals end()
+            rng = None
+            f0, l0 = args[0], args[1]
+            if isinstance(f0, tuple) and f0 and f0[0] == "ev" and isinstance(l0, tuple) and l0 and l0[0] == "ev":
+                e0, e1 = self.path.events[f0[1] - 1], self.path.events[l0[1] - 1]
+                if e0[0].split("<")[0].split("::")[-1] in ("begin", "cbegin") and e1[0].split("<")[0].split("::")[-1] in ("end", "cend") \
+                        and len(e0[1]) == 1 and e0[1] == e1[1]:
+                    rng = e0[1][0]
+            if rng is not None:
+                elems = list_elems(rng)
+                if elems is not None:
+                    for e in elems:
+                        if self.truth(self.apply(args[2], [e], unit, unit.loc(n.get("loc")), None)):
+                            return ("iter", e)
+                    return l0
+                i = 0
+                while self.decide(("more", rng, i)):
+                    if i >= self.cfg.loop_bound:
+                        self.event("loop-bound", [], unit.loc(n.get("loc")))
+                        raise _Truncated()
+                    e = ("elem", rng, i)
+                    if self.truth(self.apply(args[2], [e], unit, unit.loc(n.get("loc")), None)):
+                        return ("iter", e)
+                    i += 1
+                return l0
         if self.cfg.iter_positions and qn == "std::for_each" and len(args) == 3:
             # summary (trusted): f(*it) for every position of [first, last) in order -- the `more(range, i)` atoms of a range-for
             rng = None
